@@ -95,6 +95,17 @@ def run_case(case, res):
                 if not _table_ok(res, tab, T, exact, where, "f[:, j](seq)", tags):
                     continue
                 got = [[lib.to_frac(x) for x in row] for row in tab]
+                # the same nodes in decreasing and in zig-zag order (as a list, and as a tuple): column k belongs to node k
+                m = len(args)
+                zig = [k // 2 if k % 2 == 0 else m - 1 - k // 2 for k in range(m)]
+                for perm, box in ((list(range(m))[::-1], list), (zig, tuple)):
+                    res.transition()
+                    o = lib.outcome(lambda: f[:, j](box(args[k] for k in perm)))
+                    Tp = [[T[i][k] for k in perm] for i in range(n)]
+                    if o[0] != "ok":
+                        res.violation("exception", f"f[:, {j}](unsorted nodes) raised {o[1]}: {o[2]}; {where}", exc=o[1], **tags)
+                    else:
+                        _table_ok(res, o[1], Tp, exact, where + f" nodes in order {perm}", "f[:, j](unsorted seq)", tags)
                 # derived facts on the library's own values
                 for k, u in enumerate(prm):
                     col = [got[i][k] for i in range(n)]
